@@ -611,6 +611,33 @@ def corner_cases(r: random.Random):
         out.append(build_case(fixed, fn, 200, "float64", (), "none", corners=[dict(Z, cloud="generic", qkind="uniform", noise=0.5, **sc)], tag="corner-200"))
         out.append(build_case(fixed, fn, 4, "float32", (3,), "src1", corners=[dict(Z, cloud="generic", qkind="uniform", noise=0.1, **sc)], tag="corner-bcast-src"))
         out.append(build_case(fixed, fn, 4, "float64", (3,), "tgt1", corners=[dict(Z, cloud="generic", qkind="uniform", noise=0.1, **sc)], tag="corner-bcast-tgt"))
+    # hardening: views / aliases, extreme extents (1e-6 … 1e6), mixed-regime batches (ranks, reflection, noise, extents in one batch)
+    for fn in ("svdtf", "svdstf"):
+        sc = {"scale": 0.5} if fn == "svdstf" else {}
+        for k, lay in enumerate((["strided", "transposed"], ["transposed", "offset"], ["offset", "strided"], ["strided", "strided"])):
+            c = build_case(fixed, fn, 5 + k, "float64" if k % 2 == 0 else "float32", (3,), "none",
+                           corners=[dict(Z, cloud="generic", qkind="uniform", noise=0.1, **sc), dict(Z, cloud="planar", qkind="pi", **sc),
+                                    dict(Z, cloud="generic", qkind="uniform", nkind="mirror", noise=0.05, **sc)], tag="corner-views")
+            c["layout"] = lay
+            out.append(c)
+        for bshape in ((1,), (1, 2)):      # singleton batch axes must survive
+            out.append(build_case(fixed, fn, 5, "float64", bshape, "none", corners=[dict(Z, cloud="generic", qkind="uniform", noise=0.1, **sc)],
+                                  tag="corner-singleton-batch"))
+        c = build_case(fixed, fn, 6, "float64", (2,), "none", corners=[dict(Z, cloud="generic", qkind="identity", tmag=0.0)], tag="corner-alias")
+        c["alias"] = True
+        c["layout"] = ["strided", "contig"]
+        out.append(c)
+        c = build_case(fixed, fn, 4, "float32", (3,), "src1", corners=[dict(Z, cloud="generic", qkind="uniform", noise=0.1, **sc)], tag="corner-expanded")
+        c["layout"] = ["expanded", "contig"]
+        out.append(c)
+        for dt in ("float64", "float32"):
+            out.append(build_case(fixed, fn, 9, dt, (6,), "none", corners=[dict(Z, cloud="generic", qkind="uniform", extent=1e-6, **sc),
+                                                                        dict(Z, cloud="generic", qkind="uniform", extent=1e6, noise=0.01, **sc),
+                                                                        dict(Z, cloud="planar", qkind="pi", extent=1e3, noise=0.1, nkind="normal", **sc),
+                                                                        dict(Z, cloud="collinear", qkind="uniform", extent=1e-6, **sc),
+                                                                        dict(Z, cloud="aniso", qkind="mid", extent=1e6, nkind="mirror", noise=0.05, **sc),
+                                                                        dict(Z, cloud="generic", qkind="small", extent=1.0, noise=0.3, **sc)],
+                                  tag="corner-extreme-mixed-" + dt))
     # svdstf: the whole scale range of the quantifier and beyond, without scale, default argument
     out.append(build_case(fixed, "svdstf", 8, "float64", (7,), "none", corners=[dict(Z, cloud="generic", qkind="uniform", scale=s) for s in
                                                                             (0.1, 10.0, 1e-3, 1e3, 0.5, 3.0, 1.0)], tag="corner-scale-ladder"))
@@ -1091,8 +1118,9 @@ def epnp_compare(ctx, case, est, T, pts, pix, K) -> bool:
         #   well conditioned (N >= 8, depth <= 5 radii, anisotropy >= 0.6): clean max 2.0e-10 without refinement
         #   (median 4e-14), 1.2e-11 with; otherwise without refinement N=6: 2.2e-6, N=7: 8.1e-9, N>=8: 9.2e-9;
         #   with refinement N<8: 6.0e-10, N>=8: 1.2e-11
+        ci = case["per_item"][b] if "per_item" in case else case
         small = case["N"] < 8
-        wellc = case["N"] >= 8 and case["depth"] <= 5 and case["aniso"] >= 0.6
+        wellc = case["N"] >= 8 and ci["depth"] <= 5 and ci["aniso"] >= 0.6
         if case["refine"]:
             tol = 1e-7 if small else 1e-9
         elif wellc:
@@ -1138,6 +1166,303 @@ def run_epnp(ctx: Ctx, specs):
         ctx.sample({"stream": "epnp", **spec}, cap=8)
 
 
+
+# ----------------------------------------------------------------------------- object re-use histories (ICP / EPnP modules)
+
+def _views(t, layout):
+    v, buf = relayout(t, layout)
+    return v, buf
+
+
+def _eq_attr(a, b):
+    if torch.is_tensor(a) and torch.is_tensor(b):
+        return a.shape == b.shape and a.dtype == b.dtype and bool(torch.equal(torch.Tensor.as_subclass(a.detach(), torch.Tensor),
+                                                                              torch.Tensor.as_subclass(b.detach(), torch.Tensor)))
+    return a == b
+
+
+def make_stepper(kind, n):
+    P = pp()
+    if kind == "fixed":
+        return FixedStepper(n)
+    if kind == "bason":
+        return P.utils.ReduceToBason(steps=n + 2, patience=2, decreasing=1e-3, tol=1e-9)
+    return None
+
+
+def icp_hist_spec(r: random.Random, **kw) -> dict:
+    spec = {"kind": "icp_hist", "seed": r.randrange(1 << 30), "stepper": r.choice(["default", "bason", "fixed", "fixed"]),
+            "ctor_init": r.random() < 0.5, "ncalls": r.choice([3, 4, 5]), "dtype": r.choice(["float64", "float64", "float32"]),
+            "passes": r.choice([1, 2, 3])}
+    spec.update(kw)
+    return spec
+
+
+def check_icp_history(ctx: Ctx, hs) -> bool:
+    """ONE ICP module object, several calls; every per-call argument varies between the calls (point counts, target size,
+    batch shape with *different* items, dtype where legal, forward-init, memory layout); the constructor's init tensor and
+    the caller's clouds are updated in place between calls.  Every call must equal the same call on a fresh, equivalent
+    module bit for bit; the module's public attributes must be what the caller put there."""
+    P = pp()
+    r = random.Random(hs["seed"])
+    case0 = dict(hs)
+    ok = True
+    dt_fixed = getattr(torch, hs["dtype"])
+    init_t = None
+    if hs["ctor_init"]:
+        q = U.rand_quat(r, "small")
+        init_t = P.SE3(torch.tensor([0.05, -0.02, 0.03] + q, dtype=torch.float64).to(dt_fixed))
+    stp = make_stepper(hs["stepper"], hs["passes"])
+    try:
+        module = P.module.ICP(init=init_t, stepper=stp) if stp is not None else P.module.ICP(init=init_t)
+    except Exception as e:  # noqa: BLE001
+        ctx.fail(case0, f"raises: constructing ICP raises {type(e).__name__}: {str(e)[:100]}")
+        return False
+    stepper_obj = module.stepper
+    st_attrs = {k: getattr(stepper_obj, k) for k in ("max_steps", "patience", "decreasing", "tol") if hasattr(stepper_obj, k)}
+    for ci in range(hs["ncalls"]):
+        case = dict(hs, call=ci)
+        dtype = dt_fixed if hs["ctor_init"] else getattr(torch, r.choice(["float64", "float64", "float32"]))
+        eps = common.EPS[str(dtype).split(".")[-1]]
+        nb = r.choice([0, 0, 2, 3])
+        N = r.choice([3, 5, 8, 12, 20, 30])
+        extra = r.choice([0, 0, 2, 7])
+        items = []
+        for b in range(max(nb, 1)):
+            inside = r.random() < 0.5
+            sp = icp_spec(r, N, inside, extra=extra, drop=0, init="none", batch=0, offset=r.choice([0.0, 5.0, 1e3]))
+            src, tgt, truth, _ = icp_data(sp)
+            items.append((src, tgt, truth, sp))
+        S = torch.tensor([it[0] for it in items], dtype=torch.float64).to(dtype)
+        T = torch.tensor([it[1] for it in items], dtype=torch.float64).to(dtype)
+        if not nb:
+            S, T = S[0], T[0]
+        lay = [r.choice(["contig", "contig", "strided", "transposed", "offset"]) for _ in range(2)]
+        Sv, sbuf = relayout(S, lay[0])
+        Tv, tbuf = relayout(T, lay[1])
+        fwd = None
+        if r.random() < 0.4:
+            fwd = P.SE3(torch.tensor([0.0, 0.01, -0.01] + U.rand_quat(r, "small"), dtype=torch.float64).to(dtype))
+        if init_t is not None and ci > 0 and r.random() < 0.6:
+            # stale read: the caller updates the constructor's init tensor in place
+            with torch.no_grad():
+                init_t.copy_(P.SE3(torch.tensor([r.uniform(-0.1, 0.1) for _ in range(3)] + U.rand_quat(r, "small"), dtype=torch.float64).to(dt_fixed)))
+            ctx.count("icp_hist.init-updated-in-place")
+        snap = [(x, torch.Tensor.as_subclass(x.detach(), torch.Tensor).clone()) for x in (Sv, Tv, sbuf, tbuf, fwd, init_t) if x is not None]
+
+        def one(mod, a, b, f):
+            with warnings.catch_warnings():
+                warnings.simplefilter("ignore")
+                return mod(a, b, init=f) if f is not None else mod(a, b)
+
+        def fresh():
+            st2 = make_stepper(hs["stepper"], hs["passes"])
+            i2 = None if init_t is None else P.SE3(init_t.tensor().detach().clone())
+            m2 = P.module.ICP(init=i2, stepper=st2) if st2 is not None else P.module.ICP(init=i2)
+            a, _ = relayout(S.clone(), lay[0])
+            b, _ = relayout(T.clone(), lay[1])
+            return one(m2, a, b, None if fwd is None else P.SE3(fwd.tensor().detach().clone()))
+
+        rounds = [("call", None)]
+        if r.random() < 0.5:
+            rounds.append(("after-in-place-update", 1.0 + 2.0 ** -6))
+        for what, factor in rounds:
+            if factor is not None:      # stale read: the caller's clouds are changed in place, then the same objects are passed again
+                with torch.no_grad():
+                    Sv.mul_(factor)
+                    Tv.mul_(factor)
+                    S = Sv.clone() if lay[0] != "transposed" else Sv.contiguous().clone()
+                    T = Tv.clone() if lay[1] != "transposed" else Tv.contiguous().clone()
+                snap = [(x, torch.Tensor.as_subclass(x.detach(), torch.Tensor).clone()) for x in (Sv, Tv, sbuf, tbuf, fwd, init_t) if x is not None]
+            try:
+                out = one(module, Sv, Tv, fwd)
+                ref = fresh()
+            except Exception as e:  # noqa: BLE001
+                ctx.fail(case, f"raises: ICP raises {type(e).__name__}: {str(e)[:100]} in call {ci} of a history on one module "
+                               f"(N={N}, batch={nb}, dtype={dtype}, layout={lay}, forward-init={fwd is not None})")
+                return False
+            ctx.count("icp_hist.calls")
+            want_shape = ((nb,) if nb else ()) + (7,)
+            if type(out).__name__ != "LieTensor" or tuple(out.shape) != want_shape or out.dtype != dtype:
+                ctx.fail(case, f"type: ICP returned {type(out).__name__} shape {tuple(getattr(out, 'shape', ()))} {getattr(out, 'dtype', None)}, "
+                               f"expected SE3 {want_shape} {dtype} (call {ci} of a history)")
+                return False
+            if not torch.equal(out.tensor(), ref.tensor()):
+                d = float((out.tensor() - ref.tensor()).abs().max())
+                ctx.fail(case, f"history: {what} {ci} on a re-used ICP module differs from the same call on a fresh module by {d:.3e} "
+                               f"(N={N}, batch={nb}, dtype={dtype}, layout={lay}, forward-init={fwd is not None}, stepper={hs['stepper']})")
+                ok = False
+            for x, x0 in snap:
+                if not torch.equal(torch.Tensor.as_subclass(x.detach(), torch.Tensor), x0):
+                    ctx.fail(case, f"mutation: ICP changed a tensor of the caller (call {ci}, layout {lay})")
+                    ok = False
+                    break
+            # public attributes
+            if module.init is not init_t or module.stepper is not stepper_obj:
+                ctx.fail(case, f"history: ICP replaced its public attribute {'init' if module.init is not init_t else 'stepper'} during call {ci}")
+                ok = False
+            for k2, v2 in st_attrs.items():
+                if not _eq_attr(getattr(stepper_obj, k2), v2):
+                    ctx.fail(case, f"history: stepper attribute {k2} changed from {v2} to {getattr(stepper_obj, k2)} during call {ci}")
+                    ok = False
+            # the property itself, item by item (mixed batch: inside / outside the basin, different offsets)
+            O = out.tensor().detach().double().reshape(-1, 7)
+            S64 = S.double().reshape(-1, S.shape[-2], 3)
+            T64 = T.double().reshape(-1, T.shape[-2], 3)
+            eff = fwd if fwd is not None else init_t
+            for b in range(O.shape[0]):
+                if not torch.isfinite(O[b]).all():
+                    ctx.fail(case, f"valid: ICP returned non-finite numbers (call {ci}, item {b})")
+                    ok = False
+                    continue
+                cur0 = S64[b] if eff is None else U.apply_vec(eff.tensor().detach().double().reshape(-1), S64[b])
+                E0, En = U.mscd(cur0, T64[b]), U.mscd(U.apply_vec(O[b], S64[b]), T64[b])
+                D = float(max(S64[b].abs().max(), T64[b].abs().max()))
+                delta = 256 * eps * D
+                if not (En <= E0 + delta * delta + 2 * delta * math.sqrt(E0) + 64 * eps * E0):
+                    ctx.fail(case, f"monotone: item {b} of call {ci}: mean squared closest-point distance {En:.6e} > {E0:.6e} of its initial transform "
+                                   f"(batch of different items, stepper={hs['stepper']})")
+                    ok = False
+                # inside the basin (the initial nearest-neighbour assignment is the true correspondence, with a margin):
+                # exact recovery, for the item inside the batch and for the item alone
+                truth = items[b][2]
+                want = U.apply_vec(torch.tensor(truth["t"] + truth["q"], dtype=torch.float64), S64[b]) * (1.0 if factor is None else factor)
+                d0 = ((cur0.unsqueeze(1) - T64[b].unsqueeze(0)) ** 2).sum(-1)
+                dw = ((want.unsqueeze(1) - T64[b].unsqueeze(0)) ** 2).sum(-1)
+                basin = bool((d0.argmin(-1) == dw.argmin(-1)).all()) and float(dw.min(-1).values.max()) <= (64 * eps * D) ** 2 \
+                    and U.nn_margin(cur0, T64[b]) > 1e-3 and items[b][3]["tnoise"] == 0
+                if basin:
+                    ctx.count("icp_hist.basin-items")
+                    res = float((U.apply_vec(O[b], S64[b]) - want).abs().max())
+                    tolr = 4096 * eps * D * (1 + N ** 0.5)
+                    if not (res <= tolr):
+                        ctx.fail(case, f"recover: item {b} of call {ci} (batch of different items) is inside the basin but ICP misses the exact rigid "
+                                       f"motion by {res:.3e} > {tolr:.3e} (stepper={hs['stepper']})")
+                        ok = False
+                    if O.shape[0] > 1:
+                        try:
+                            st3 = make_stepper(hs["stepper"], hs["passes"])
+                            i3 = None if init_t is None else P.SE3(init_t.tensor().detach().clone())
+                            m3 = P.module.ICP(init=i3, stepper=st3) if st3 is not None else P.module.ICP(init=i3)
+                            alone = one(m3, S.reshape(-1, S.shape[-2], 3)[b].clone(), T.reshape(-1, T.shape[-2], 3)[b].clone(),
+                                        None if fwd is None else P.SE3(fwd.tensor().detach().clone()))
+                            ra = float((U.apply_vec(alone.tensor().detach().double().reshape(-1), S64[b]) - U.apply_vec(O[b], S64[b])).abs().max())
+                            ctx.count("icp_hist.item-alone")
+                            if not (ra <= 2 * tolr):
+                                ctx.fail(case, f"batch: item {b} of a batched ICP call and the same item alone differ by {ra:.3e} on the source points "
+                                               f"(inside the basin, call {ci})")
+                                ok = False
+                        except Exception as e:  # noqa: BLE001
+                            ctx.fail(case, f"raises: ICP raises {type(e).__name__} on a single item of a batch that was accepted (call {ci})")
+                            ok = False
+    return ok
+
+
+def epnp_hist_spec(r: random.Random, **kw) -> dict:
+    spec = {"kind": "epnp_hist", "seed": r.randrange(1 << 30), "refine": r.random() < 0.5, "ctorK": r.random() < 0.7,
+            "ncalls": r.choice([3, 4, 5])}
+    spec.update(kw)
+    return spec
+
+
+def check_epnp_history(ctx: Ctx, hs) -> bool:
+    """ONE EPnP module, several calls with different point counts, batch shapes (items of different regimes), intrinsics
+    (default / per-call override / the default tensor updated in place by the caller), memory layouts; each call must
+    equal a fresh module bit for bit and recover its own ground truth; `refine` and the stored intrinsics stay as set."""
+    P = pp()
+    r = random.Random(hs["seed"])
+    ok = True
+    K0 = torch.tensor([[r.choice([300.0, 500.0, 900.0]), 0.0, 320.0], [0.0, 480.0, 240.0], [0.0, 0.0, 1.0]], dtype=torch.float64) \
+        if hs["ctorK"] else None
+    try:
+        mod = P.module.EPnP(K0, refine=hs["refine"]) if K0 is not None else P.module.EPnP(refine=hs["refine"])
+    except Exception as e:  # noqa: BLE001
+        ctx.fail(dict(hs), f"raises: constructing EPnP raises {type(e).__name__}: {str(e)[:100]}")
+        return False
+    for ci in range(hs["ncalls"]):
+        N = r.choice([6, 8, 9, 12, 25, 40])
+        nb = r.choice([0, 0, 2, 3])
+        per_item, scenes = [], []
+        for b in range(max(nb, 1)):
+            sp = epnp_spec(r, N=N, batch=0)
+            pts, q, t, _ = epnp_scene(sp)
+            scenes.append((pts, q, t))
+            per_item.append({"depth": sp["depth"], "aniso": sp["aniso"]})
+        if K0 is not None and ci > 0 and r.random() < 0.5:
+            with torch.no_grad():       # stale read: the caller changes the module's default intrinsics tensor in place
+                K0[0, 0] = r.choice([250.0, 700.0, 1500.0])
+                K0[1, 1] = K0[0, 0] * r.choice([1.0, 0.9])
+                K0[0, 2] = r.choice([0.0, 320.0])
+            ctx.count("epnp_hist.intrinsics-updated-in-place")
+        override = (K0 is None) or r.random() < 0.35
+        K = K0
+        if override:
+            f = r.choice([200.0, 640.0, 2000.0])
+            K = torch.tensor([[f, 0.0, r.choice([0.0, 300.0])], [0.0, f * r.choice([1.0, 1.1]), 200.0], [0.0, 0.0, 1.0]], dtype=torch.float64)
+        case = dict(hs, call=ci, N=N, depth=per_item[0]["depth"], aniso=per_item[0]["aniso"], f=float(K[0, 0]), per_item=per_item, batch=nb)
+        pts = torch.tensor([s_[0] for s_ in scenes], dtype=torch.float64)
+        T = P.SE3(torch.tensor([s_[2] + s_[1] for s_ in scenes], dtype=torch.float64))
+        pix = P.point2pixel(pts, K, T)
+        if float((T.unsqueeze(-2) @ pts)[..., 2].min()) <= 0:
+            continue
+        if not nb:
+            pts, pix, T = pts[0], pix[0], T[0]
+        lay = [r.choice(["contig", "contig", "strided", "transposed", "offset"]) for _ in range(2)]
+        pv, pbuf = relayout(pts.clone(), lay[0])
+        xv, xbuf = relayout(pix.clone(), lay[1]) if lay[1] != "strided" else (pix.clone(), None)
+        snap = [(x, x.clone()) for x in (pv, xv, pbuf, xbuf, K) if x is not None]
+        K0_before = None if K0 is None else K0.clone()
+        try:
+            with warnings.catch_warnings():
+                warnings.simplefilter("ignore")
+                est = mod(pv, xv, K) if override else mod(pv, xv)
+                m2 = P.module.EPnP(K0.clone(), refine=hs["refine"]) if K0 is not None else P.module.EPnP(refine=hs["refine"])
+                a, _ = relayout(pts.clone(), lay[0])
+                b2, _ = relayout(pix.clone(), lay[1]) if lay[1] != "strided" else (pix.clone(), None)
+                ref = m2(a, b2, K.clone()) if override else m2(a, b2)
+        except Exception as e:  # noqa: BLE001
+            ctx.fail(case, f"raises: EPnP raises {type(e).__name__}: {str(e)[:100]} in call {ci} of a history on one module "
+                           f"(N={N}, batch={nb}, override={override}, layout={lay})")
+            return False
+        ctx.count("epnp_hist.calls")
+        if type(est).__name__ == "LieTensor" and type(ref).__name__ == "LieTensor" and est.shape == ref.shape and \
+                not torch.equal(est.tensor(), ref.tensor()):
+            d = float((est.tensor() - ref.tensor()).abs().max())
+            ctx.fail(case, f"history: call {ci} on a re-used EPnP module differs from the same call on a fresh module by {d:.3e} "
+                           f"(N={N}, batch={nb}, override={override}, layout={lay}, refine={hs['refine']})")
+            ok = False
+        for x, x0 in snap:
+            if not torch.equal(x, x0):
+                ctx.fail(case, f"mutation: EPnP changed a tensor of the caller (call {ci}, layout {lay})")
+                ok = False
+                break
+        if mod.refine != hs["refine"] or (K0 is not None and not torch.equal(mod.intrinsics, K0_before)) or \
+                (K0 is None and hasattr(mod, "intrinsics")):
+            ctx.fail(case, f"history: after call {ci} EPnP's public state is not what the caller set: refine={mod.refine} (set {hs['refine']}), default "
+                           f"intrinsics {'differ from the tensor the caller passed (stale copy or overwritten)' if K0 is not None else 'created by a call'}")
+            ok = False
+        ok = epnp_compare(ctx, case, est, T, pts, pix, K) and ok
+    return ok
+
+
+def run_histories(ctx: Ctx, n_icp: int, n_epnp: int):
+    fixed = random.Random(909)
+    hs = [icp_hist_spec(fixed, stepper=s_, ctor_init=c_, dtype=d_, ncalls=4) for s_, c_, d_ in
+          (("default", False, "float64"), ("default", True, "float64"), ("bason", True, "float32"), ("fixed", False, "float64"),
+           ("fixed", True, "float64"))]
+    hs += [icp_hist_spec(ctx.rng) for _ in range(n_icp)]
+    for h in hs:
+        ctx.note_case(("icp_hist", h["stepper"], h["ctor_init"], h["dtype"], h["ncalls"], h["seed"] % 7), True)
+        ctx.count(f"icp_hist.{h['stepper']}.{'ctor-init' if h['ctor_init'] else 'no-init'}")
+        check_icp_history(ctx, h)
+    es = [epnp_hist_spec(fixed, refine=r_, ctorK=k_, ncalls=4) for r_, k_ in ((True, True), (False, True), (False, False), (True, False))]
+    es += [epnp_hist_spec(ctx.rng) for _ in range(n_epnp)]
+    for h in es:
+        ctx.note_case(("epnp_hist", h["refine"], h["ctorK"], h["ncalls"], h["seed"] % 7), True)
+        ctx.count(f"epnp_hist.refine-{h['refine']}.{'ctorK' if h['ctorK'] else 'noK'}")
+        check_epnp_history(ctx, h)
+
+
 # ----------------------------------------------------------------------------- entry points
 
 def run(ctx: Ctx):
@@ -1150,6 +1475,7 @@ def run(ctx: Ctx):
     run_icp(ctx, specs)
     especs = epnp_corner_specs() + [epnp_spec(rng) for _ in range(ctx.pick(110, 5000))]
     run_epnp(ctx, especs)
+    run_histories(ctx, ctx.pick(14, 300), ctx.pick(10, 250))
     ctx.notes.append("largest error/tolerance ratios: " + ", ".join(f"{k}={v:.3g}" for k, v in sorted(RATIOS.items())))
 
 
@@ -1189,6 +1515,13 @@ def replay(ctx: Ctx, case) -> bool:
         c.pop("kind")
         c.pop("call", None)
         check_epnp_case(ctx, c)
+    elif kind == "icp_hist":
+        c.pop("call", None)
+        check_icp_history(ctx, c)
+    elif kind == "epnp_hist":
+        for k2 in ("call", "N", "depth", "aniso", "f", "per_item", "batch"):
+            c.pop(k2, None)
+        check_epnp_history(ctx, c)
     for f in ctx.failures[n0:]:
         print("  fails:", f["what"])
     for d in ctx.disagreements:
